@@ -246,6 +246,9 @@ where
             .as_ref()
             .ok_or(PlanningError::PlannerUninitialised)?;
         let goal = &pd.goal;
+        if !vc.is_valid(&pd.start_states[0]) {
+            return Err(PlanningError::InvalidStartState);
+        }
 
         // Main loop
         loop {
